@@ -32,7 +32,7 @@ def norm_src(src):
     return r.strip() if isinstance(r, str) else r
 
 COVERED_TEMPLATES = {0, 1, 2, 5, 6, 7, 8, 12, 13, 14}
-UNCOVERED_OPS = ("rename_space", "set_param", "eval_item", "allow_none", "new_cells_src",
+UNCOVERED_OPS = ("set_param", "eval_item", "allow_none", "new_cells_src",
                  "new_cells_obj", "set_formula_obj", "set_param_obj", "new_space_obj")
 
 
@@ -64,6 +64,8 @@ class EditCorr:
         self.by_src = {}            # normalised source -> template tuple
         self.sent_defs = set()
         self.sent_rvals = set()
+        self.spelling = {}          # id(space impl) -> the name its slots were first declared under
+        self.declared = set()
         self.alive = True
         self.ended = None
         self.started = False
@@ -105,8 +107,20 @@ class EditCorr:
             tgt = sp.refs.get(t[4]) if t[4] in sp.refs and t[4] not in sp.spaces else None
             if tgt is None or type(tgt).__name__ != "UserSpace" or tgt.parent is not live.m:
                 return None
-            a = tgt.name
-            pre.append("slot %s %s" % (a, t[3]))
+            # the slot keeps the spelling it was declared under when the space is renamed (`Edit.Tabs.spell`: the
+            # reference follows the object); a slot that would have to be declared for a space AFTER it was renamed,
+            # or under a name that spelled another space, is outside what the driver's `slot` line can say
+            first = self.spelling.get(id(tgt._impl))
+            if first is None:
+                if tgt.name in self.spelling.values():
+                    return None
+                first = self.spelling[id(tgt._impl)] = tgt.name
+            if first != tgt.name and (first, t[3]) not in self.declared:
+                return None
+            a = first
+            if (first, t[3]) not in self.declared:
+                self.declared.add((first, t[3]))
+                pre.append("slot %s %s" % (a, t[3]))
         elif t[0] == 16:
             for p_, _s in W.all_spaces(live.m):
                 pre.append("slot %s %s" % (p_, t[3]))
@@ -238,6 +252,13 @@ class EditCorr:
                     t = self.by_src.get(norm_src(c.formula.source))
                     if t is not None:
                         self.note(op[3], t)
+            elif kind == "rename_space":
+                # `space.rename(new)`: `Edit.stepR` (the identities of the cells follow the relabelling)
+                if not isinstance(op[1], str) or not isinstance(op[2], str) or not op[1] or not op[2]:
+                    if acc:
+                        self.end(k, kind)
+                    return
+                line, want = "renamespace %s %s" % (op[1], op[2]), "acc" if acc else "rej"
             elif kind == "add_bases":
                 line, want = "addbases %s %s" % (op[1], csv(op[2])), "acc" if acc else "rej"
             elif kind == "remove_bases":
@@ -307,6 +328,27 @@ class EditCorr:
             self.alive = False
             return
         self.check_obs(live, k, out, hist_of, line.split(" ")[0])
+        if kind == "rename_space" and acc and self.alive:
+            self.check_renamed_nodes(live, k, op, out, hist_of)
+
+    def check_renamed_nodes(self, live, k, op, out, hist_of):
+        """`C02.covered_rename_leaves_nothing_of_the_renamed_spaces`: right after an accepted rename no cells of the
+        renamed space or of a space below it has a node in the trace graph - in the machine and in modelx"""
+        new = op[1].rpartition(".")[0]
+        new = (new + "." if new else "") + op[2]
+        inside = lambda nm: nm.startswith(new + ".")     # noqa
+        want = ",".join(sorted(x for x in self.ask(["nodes"])[-1].split(",") if x and inside(x)))
+        names = set()
+        for n in live.m._impl.tracegraph.nodes:
+            try:
+                names.add(n[0].get_fullname(omit_model=True))
+            except Exception:   # noqa
+                pass
+        got = ",".join(sorted(x for x in names if inside(x)))
+        self.compared += 1
+        if got != want:
+            out.disagree(hist_of(k), k, "nodes:" + got, "nodes:" + want, layer="edit:nodes-after-renamespace")
+            self.alive = False
 
     def check_obs(self, live, k, out, hist_of, what):
         want = held(live.m)
@@ -390,6 +432,81 @@ def scenarios():
                 for e in edits:
                     ee = [[(1 - (fc if o[2] == "f" else gc)) if x == "FLIP" else x for x in o] for o in e]
                     cases.append([list(o) for o in base] + [["evalall"]] + ee + [["evalall"]])
+    return cases
+
+
+def rename_scenarios():
+    """Scenario family `space.rename`: a parent `P` (cells `k`, `m`) with the child `P.B` (reference `s`, `f` reading it,
+    `g` calling `f`, `h` calling `g`), sub spaces `C(P.B)` and `D(C)` elsewhere; `f`, `g` cached or uncached; inputs in
+    the renamed tree and outside; everything evaluated; then a rename of the child / of the parent (recursive) / of a
+    sub space, refused renames, a rename back, a rename onto the name of a formerly deleted space (the tables still
+    carry its identities), edits after the rename; everything evaluated again.  Compared after every step: accept /
+    refuse, evaluation results, held elements with input marks (the renamed tree loses its inputs), and that no cells
+    of the renamed tree keeps a node in the trace graph."""
+    F = lambda i, k=1, a="f", r="s": (i, k, a, r, "X")     # noqa
+    EA = ["evalall"]
+    edits = [
+        [["rename_space", "P.B", "Z"]],
+        [["rename_space", "P", "Z"]],
+        [["rename_space", "C", "Z"]],
+        [["rename_space", "D", "Z"]],
+        [["rename_space", "P.B", "k"], ["rename_space", "P.B", "B"], ["rename_space", "C", "D"], ["rename_space", "C", "for"]],
+        [["rename_space", "P.B", "Z"], EA, ["rename_space", "P.Z", "B"]],
+        [["rename_space", "P", "Z"], ["new_space", "-", "P", []], ["new_cells", "P", "k", F(0, 9)], EA,
+         ["rename_space", "Z.B", "Y"]],
+        [["rename_space", "P.B", "Z"], EA, ["set_formula", "P.Z", "f", F(6, 3)]],
+        [["rename_space", "P.B", "Z"], EA, ["set_ref", "P.Z", "s", 5], EA, ["del_space", "P.Z"]],
+        [["new_space", "P", "Z", []], ["new_cells", "P.Z", "f", F(0, 8)], ["new_cells", "P.Z", "q", F(0, 6)], EA,
+         ["del_space", "P.Z"], ["rename_space", "P.B", "Z"]],
+        [["rename_space", "P", "Z"], EA, ["remove_bases", "C", ["Z.B"]]],
+        [["set_value", "C", "h", 2, 31], ["rename_space", "P.B", "Z"], EA, ["rename_space", "C", "Y"]],
+    ]
+    cases = []
+    for fc in (1, 0):
+        for gc in (1, 0):
+            base = [["new_space", "-", "P", []], ["new_cells", "P", "k", F(0, 4)], ["set_ref", "P", "s", 2],
+                    ["new_cells", "P", "m", F(2, 1)], ["new_space", "P", "B", []], ["set_ref", "P.B", "s", 1],
+                    ["new_cells", "P.B", "f", F(2, 1)], ["new_cells", "P.B", "g", F(1, 1, "f")],
+                    ["new_cells", "P.B", "h", F(1, 2, "g")], ["new_space", "-", "C", ["P.B"]],
+                    ["new_space", "-", "D", ["C"]]]
+            if not fc:
+                base.append(["set_cached", "P.B", "f", 0])
+            if not gc:
+                base.append(["set_cached", "P.B", "g", 0])
+            base += [["set_value", "P.B", "h", 1, 25], ["set_value", "P", "k", 1, 26], ["set_value", "D", "h", 1, 27]]
+            for e in edits:
+                cases.append([list(o) for o in base] + [EA] + [list(o) for o in e] + [EA])
+    return cases
+
+
+def slot_rename_scenarios():
+    """Renames of a space THROUGH which other spaces read (`T.c = S.r`, `S` a reference of `T` to the space: the
+    reference follows the object, the declared slot keeps its spelling - `Edit.Tabs.spell`) and whose own cells read
+    `_space.r` / `r`: the rename itself keeps what `T` holds; afterwards the slot of the renamed space is edited
+    (own reference, model-level reference, a base, deletion of the reference / of the space), another space takes
+    the old name."""
+    F = lambda i, k=1, a="f", r="r", c="S": (i, k, a, r, c)     # noqa
+    EA = ["evalall"]
+    edits = [
+        [["rename_space", "S", "Z"]],
+        [["rename_space", "S", "Z"], EA, ["set_ref", "Z", "r", 7]],
+        [["rename_space", "S", "Z"], EA, ["set_mref", "r", 4]],
+        [["rename_space", "S", "Z"], EA, ["new_space", "-", "B", []], ["set_ref", "B", "r", 5], ["add_bases", "Z", ["B"]]],
+        [["set_ref", "S", "r", 7], EA, ["rename_space", "S", "Z"], EA, ["del_ref", "Z", "r"]],
+        [["rename_space", "S", "Z"], EA, ["del_space", "Z"]],
+        [["rename_space", "S", "Z"], EA, ["rename_space", "S2", "S"], EA, ["set_ref", "S", "r", 2], EA, ["set_ref", "Z", "r", 3]],
+        [["rename_space", "S", "Z"], ["new_space", "-", "S", []], ["set_ref", "S", "r", 9], EA, ["del_mref", "r"]],
+    ]
+    cases = []
+    for cached in (1, 0):
+        base = [["set_mref", "r", 1], ["new_space", "-", "S", []], ["new_space", "-", "S2", []], ["new_space", "-", "T", []],
+                ["set_ref", "T", "S", ("obj", "S")], ["set_ref", "T", "S2", ("obj", "S2")],
+                ["new_cells", "S", "f", F(2)], ["new_cells", "S", "g", F(16)], ["new_cells", "T", "c", F(3)],
+                ["new_cells", "T", "c2", F(3, 1, "f", "r", "S2")], ["new_cells", "T", "d", F(1, 1, "c")]]
+        if not cached:
+            base += [["set_cached", "S", "g", 0], ["set_cached", "T", "c", 0]]
+        for e in edits:
+            cases.append([list(o) for o in base] + [EA] + [list(o) for o in e] + [EA])
     return cases
 
 
@@ -531,6 +648,16 @@ def run_family(ctx, out, n_quick=90, n_thorough=2500, ops_range=(14, 30)):
     pool = covered_motifs()
     for ops in scenarios():
         run_history(ops, out, stats)
+        if out.disagreements:
+            return stats
+    for ops in rename_scenarios():
+        run_history(ops, out, stats)
+        stats["edit_rename_scenarios"] += 1
+        if out.disagreements:
+            return stats
+    for ops in slot_rename_scenarios():
+        run_history(ops, out, stats, objrefs=True)
+        stats["edit_slot_rename_scenarios"] += 1
         if out.disagreements:
             return stats
     for ops in shadow_scenarios():
